@@ -30,21 +30,107 @@ impl std::fmt::Debug for Error {
 // src/lib.rs: `pub type Result<T> = std::result::Result<T, Error>;`
 type Result<T> = std::result::Result<T, Error>;
 
-// R3 shim of `IndexRead` (src/index/mod.rs): a transport pointing at one band's index directory plus a
-// decompressor and counters.  What the contracts speak about is the GHOST ARCHIVE VIEW of that directory:
+// ---- IndexRead (src/index/mod.rs): the real declaration (R11): a transport pointing at one band's index directory
+// plus a decompressor and counters.  What the contracts speak about is the GHOST ARCHIVE VIEW of that directory:
 //   view():    hunk number -> Ok(entries) if file `hunk_relpath(n)` exists, decompresses and decodes to `entries`,
 //                             Err(())     if it exists but cannot be read/decompressed/decoded,
 //                             (absent key) if there is no such file;
-//   listing(): Ok(numbers) = what `hunks_available` enumerates (sub-directories in name order, numeric file
-//              names in order inside each), Err(()) if a directory listing fails.
+//   listing(): Ok(numbers) = what enumerating the index directory yields (sub-directories in name order, numeric file
+//              names in order inside each), Err(()) if a directory listing fails.  DEFINED below over the transport's
+//              directory model; `hunks_available` is PROVED to return it (unit hunkiter).
 // ASSUMPTION (DESIGN C08 "the archive is unchanged during the listing"): reading does not change the view.
+
+// transport::Error: opaque
 #[verifier::external_body]
-struct IndexRead { _p: () }
+struct TransportError { _p: () }
+
+// thiserror `#[from] transport::Error` on crate::Error::Transport (what `?` applies); nothing is claimed about the result
+impl From<TransportError> for Error {
+    #[verifier::external_body]
+    fn from(e: TransportError) -> (r: Error) { unimplemented!() }
+}
+impl vstd::std_specs::convert::FromSpecImpl<TransportError> for Error {
+    closed spec fn obeys_from_spec() -> bool { false }
+    closed spec fn from_spec(e: TransportError) -> Error { arbitrary() }
+}
+
+//@@ type src/transport.rs | struct DirEntry
+//@@ end
+
+// R3 shim of Transport as IndexRead uses it for listing.
+#[verifier::external_body]
+struct Transport { _p: () }
+
+impl Transport {
+    // what `list_dir(path)` yields during this operation: Ok(entries) or Err = the listing failed
+    uninterp spec fn dir_list(&self, path: Seq<char>) -> std::result::Result<Seq<DirEntry>, ()>;
+
+    #[verifier::external_body]
+    async fn list_dir(&self, relpath: &str) -> (r: std::result::Result<Vec<DirEntry>, TransportError>)
+        ensures
+            r matches Ok(v) ==> self.dir_list(relpath@) == Ok::<Seq<DirEntry>, ()>(v@),
+            r is Err ==> self.dir_list(relpath@) is Err,
+    { unimplemented!() }
+}
+
+// src/compress/snappy.rs Decompressor, src/stats.rs IndexReadStats: only stored here
+#[verifier::external_body]
+struct Decompressor { _p: () }
+
+//@@ type src/stats.rs | struct IndexReadStats
+//@@ end
+
+//@@ type src/index/mod.rs | struct IndexRead
+//@@ end
+
+// R7 contract functions (the two iterator chains of hunks_available, lifted verbatim into r7_* helpers below):
+//   sorted_dir_names(es)    = es.into_iter().filter(|entry| entry.is_dir()).map(|entry| entry.name).sorted().collect_vec()
+//   sorted_hunk_numbers(es) = es.into_iter().filter(|entry| entry.is_file()).filter_map(|entry| entry.name.parse::<u32>().ok()).sorted()
+uninterp spec fn sorted_dir_names(es: Seq<DirEntry>) -> Seq<Seq<char>>;
+uninterp spec fn sorted_hunk_numbers(es: Seq<DirEntry>) -> Seq<u32>;
+
+// the hunk numbers found in the given sub-directories, in that order; Err if any of them cannot be listed
+spec fn hunks_in_dirs(t: Transport, dirs: Seq<Seq<char>>) -> std::result::Result<Seq<u32>, ()>
+    decreases dirs.len()
+{
+    if dirs.len() == 0 { Ok(Seq::<u32>::empty()) }
+    else {
+        match hunks_in_dirs(t, dirs.drop_last()) {
+            Err(_) => Err(()),
+            Ok(a) => match t.dir_list(dirs.last()) {
+                Err(_) => Err(()),
+                Ok(es) => Ok(a + sorted_hunk_numbers(es)),
+            },
+        }
+    }
+}
+
+// a listing failure in any prefix of the sub-directories is a failure of the whole (hint form: no `requires`)
+proof fn lemma_hunks_in_dirs_err(t: Transport, full: Seq<Seq<char>>, j: int)
+    ensures (0 <= j <= full.len() && hunks_in_dirs(t, full.take(j)) is Err) ==> hunks_in_dirs(t, full) is Err,
+    decreases full.len() - j
+{
+    if 0 <= j <= full.len() && hunks_in_dirs(t, full.take(j)) is Err {
+        if j == full.len() {
+            assert(full.take(j) =~= full);
+        } else {
+            assert(full.take(j + 1).drop_last() =~= full.take(j));
+            lemma_hunks_in_dirs_err(t, full, j + 1);
+        }
+    }
+}
+
+spec fn listing_of(t: Transport) -> std::result::Result<Seq<u32>, ()> {
+    match t.dir_list(Seq::<char>::empty()) {
+        Err(_) => Err(()),
+        Ok(root) => hunks_in_dirs(t, sorted_dir_names(root)),
+    }
+}
 
 impl IndexRead {
     uninterp spec fn view(&self) -> Map<u32, std::result::Result<Seq<IndexEntry>, ()>>;
 
-    uninterp spec fn listing(&self) -> std::result::Result<Seq<u32>, ()>;
+    spec fn listing(&self) -> std::result::Result<Seq<u32>, ()> { listing_of(self.transport) }
 
     spec fn hunk(&self, n: u32) -> Option<std::result::Result<Seq<IndexEntry>, ()>> {
         if self.view().contains_key(n) { Some(self.view()[n]) } else { None }
@@ -63,18 +149,55 @@ impl IndexRead {
                 Err(_) => old(self).hunk(hunk_number) == Some(Err::<Seq<IndexEntry>, ()>(())),
             },
     { unimplemented!() }
-
-    // ASSUMED contract of IndexRead::hunks_available (src/index/mod.rs; two iterator chains over
-    // `Transport::list_dir`, not extracted): it returns the listing, and it fails when a list_dir fails.
-    #[verifier::external_body]
-    async fn hunks_available(&self) -> (r: Result<Vec<u32>>)
-        ensures
-            match r {
-                Ok(v) => self.listing() == Ok::<Seq<u32>, ()>(v@),
-                Err(_) => self.listing() is Err,
-            },
-    { unimplemented!() }
 }
+
+// R7 (lifted verbatim from IndexRead::hunks_available; the unit's rewrites match the chain line by line):
+//     <list_dir("") result>.into_iter().filter(|entry| entry.is_dir()).map(|entry| entry.name).sorted().collect_vec()
+// ASSUMED: the names of the directories among the entries, in ascending (String) order.
+#[verifier::external_body]
+fn r7_sorted_dir_names(entries: Vec<DirEntry>) -> (r: Vec<String>)
+    ensures
+        r@.len() == sorted_dir_names(entries@).len(),
+        forall|i: int| 0 <= i < r@.len() ==> (#[trigger] r@[i])@ == sorted_dir_names(entries@)[i],
+{ unimplemented!() }
+
+// R7 (lifted verbatim from IndexRead::hunks_available):
+//     entries.into_iter().filter(|entry| entry.is_file()).filter_map(|entry| entry.name.parse::<u32>().ok()).sorted()
+// (collected, so that R4 `extend` can take it).  ASSUMED: the numbers named by the files among the entries whose
+// names parse as u32, in ascending order.
+#[verifier::external_body]
+fn r7_sorted_hunk_numbers(entries: Vec<DirEntry>) -> (r: Vec<u32>)
+    ensures r@ == sorted_hunk_numbers(entries@),
+{ unimplemented!() }
+
+// R4: `V.extend(I)` appends the items of I in order (std: Extend for Vec)
+#[verifier::external_body]
+fn shim_vec_extend_u32(v: &mut Vec<u32>, items: Vec<u32>)
+    ensures final(v)@ == old(v)@ + items@,
+{ v.extend(items) }
+
+// R6: `for x in V` over an owned Vec<String>: the elements in order
+#[verifier::external_body]
+struct StringsIter { inner: std::vec::IntoIter<String> }
+
+impl StringsIter {
+    uninterp spec fn rem(&self) -> Seq<Seq<char>>;
+
+    #[verifier::external_body]
+    fn next(&mut self) -> (r: Option<String>)
+        ensures
+            old(self).rem().len() == 0 ==> r is None && final(self).rem() == old(self).rem(),
+            old(self).rem().len() > 0 ==> (r matches Some(x) && x@ == old(self).rem()[0])
+                && final(self).rem() == old(self).rem().skip(1),
+    { self.inner.next() }
+}
+
+#[verifier::external_body]
+fn shim_into_strings_iter(v: Vec<String>) -> (r: StringsIter)
+    ensures
+        r.rem().len() == v@.len(),
+        forall|i: int| 0 <= i < v@.len() ==> #[trigger] r.rem()[i] == v@[i]@,
+{ StringsIter { inner: v.into_iter() } }
 
 // R3 shim of `std::vec::IntoIter<u32>`: the hunk numbers not yet visited.
 #[verifier::external_body]
